@@ -153,13 +153,15 @@ impl MoveGen {
 
     /// Never, ever, iterate this move
     pub fn remove_move(&mut self, chess_move: ChessMove) -> bool {
-        for x in 0..self.moves.len() {
-            if self.moves[x].src == chess_move.source {
-                self.moves[x].moves -= chess_move.dest;
-                return true;
+        // a pawn can have two entries: its normal moves and an en-passant capture
+        let mut removed = false;
+        for legals in &mut self.moves {
+            if legals.src == chess_move.source && legals.moves.contains(chess_move.dest) {
+                legals.moves -= chess_move.dest;
+                removed = true;
             }
         }
-        false
+        removed
     }
 
     pub fn set_mask(&mut self, mask: BitBoard) {
